@@ -425,6 +425,8 @@ Proof.
   destruct (u64 (L - tl - msz) <? u64 (es + 0)) eqn:E1.
   { apply t_bind_exit. intros w Hw. exact (aue_exit _ _ _ _ Hw SPEC). }
   apply t_bind_ret.
+  (* no cryptex: the second parse check (whole extension in front of the trailer) is not made *)
+  cbn [andb]. apply t_bind_ret.
   destruct (u64 (L - es - msz) <? tl) eqn:E2.
   { apply t_bind_exit. intros w Hw. exact (aue_exit _ _ _ _ Hw SPEC). }
   apply t_bind_ret.
